@@ -258,6 +258,10 @@ class SymOb:
                 dd = Sym.of(dd)
                 self._add(nm, dd.sign_term("le"), "eqtol", d)
 
+    def same(self, name, a, b):
+        """values that must be identical (replay compares floats bit for bit)"""
+        self.eq(name, a, b)
+
     def le(self, name, a, b):
         self.true(name, _le(a, b))
 
@@ -326,6 +330,17 @@ class ConcOb:
             nm = name if a.shape == () else "%s%s" % (name, list(idx))
             ok = _close(x, y, t)
             self.items.append((nm, bool(ok), "" if ok else "%r != %r" % (x, y)))
+
+    def same(self, name, a, b):
+        a = np.asarray(a)
+        b = np.asarray(b)
+        if a.shape != b.shape:
+            self.items.append((name + ".shape", False, "shape %s vs %s" % (a.shape, b.shape)))
+            return
+        for idx in np.ndindex(*a.shape):
+            nm = name if a.shape == () else "%s%s" % (name, list(idx))
+            ok = bool(a[idx] == b[idx]) or (a[idx] != a[idx] and b[idx] != b[idx])
+            self.items.append((nm, ok, "" if ok else "%r != %r (exact)" % (a[idx], b[idx])))
 
     def le(self, name, a, b):
         self.items.append((name, bool(a <= b + self.TOL), "%r <= %r" % (a, b)))
